@@ -1499,7 +1499,7 @@ uref_##group##_cmp_##attr(struct uref *uref1, struct uref *uref2)           \
         return 0;                                                           \
     if (!ubase_check(err1) || !ubase_check(err2))                           \
         return -1;                                                          \
-    return v1 - v2;                                                         \
+    return v1 < v2 ? -1 : v1 > v2;                                          \
 }
 
 
@@ -1581,7 +1581,7 @@ static inline int uref_##group##_cmp_##attr(struct uref *uref1,             \
         return 0;                                                           \
     if (!ubase_check(err1) || !ubase_check(err2))                           \
         return -1;                                                          \
-    return v1 - v2;                                                         \
+    return v1 < v2 ? -1 : v1 > v2;                                          \
 }
 
 
@@ -1671,7 +1671,7 @@ static inline int uref_##group##_cmp_##attr(struct uref *uref1,             \
         return 0;                                                           \
     if (!ubase_check(err1) || !ubase_check(err2))                           \
         return -1;                                                          \
-    return v1 - v2;                                                         \
+    return v1 < v2 ? -1 : v1 > v2;                                          \
 }
 
 /* @This allows to define accessors for an unsigned attribute directly in the
@@ -1759,7 +1759,7 @@ static inline int uref_##group##_cmp_##attr(struct uref *uref1,             \
         return 0;                                                           \
     if (!ubase_check(err1) || !ubase_check(err2))                           \
         return -1;                                                          \
-    return v1 - v2;                                                         \
+    return v1 < v2 ? -1 : v1 > v2;                                          \
 }
 
 
@@ -1833,7 +1833,7 @@ uref_##group##_cmp_##attr(struct uref *uref1, struct uref *uref2)           \
         return 0;                                                           \
     if (!ubase_check(err1) || !ubase_check(err2))                           \
         return -1;                                                          \
-    return v1 - v2;                                                         \
+    return v1 < v2 ? -1 : v1 > v2;                                          \
 }
 
 /* @This allows to define accessors for a shorthand int attribute.
@@ -1900,7 +1900,7 @@ static inline int uref_##group##_cmp_##attr(struct uref *uref1,             \
         return 0;                                                           \
     if (!ubase_check(err1) || !ubase_check(err2))                           \
         return -1;                                                          \
-    return v1 - v2;                                                         \
+    return v1 < v2 ? -1 : v1 > v2;                                          \
 }
 
 /* @This allows to define accessors for a int attribute, with a name
@@ -1972,7 +1972,7 @@ static inline int uref_##group##_cmp_##attr(struct uref *uref1,             \
         return 0;                                                           \
     if (!ubase_check(err1) || !ubase_check(err2))                           \
         return -1;                                                          \
-    return v1 - v2;                                                         \
+    return v1 < v2 ? -1 : v1 > v2;                                          \
 }
 
 /*
@@ -2043,7 +2043,7 @@ static inline int uref_##group##_cmp_##attr(struct uref *uref1,             \
         return 0;                                                           \
     if (!ubase_check(err1) || !ubase_check(err2))                           \
         return -1;                                                          \
-    return v1 - v2;                                                         \
+    return v1 < v2 ? -1 : v1 > v2;                                          \
 }
 
 /* @This allows to define accessors for a shorthand int attribute.
